@@ -71,6 +71,9 @@ class Prop(BaseProp):
             if back != c.args[0]:
                 self.violations.append(Violation('counterexample', 'serde round trip of %s does not restore every part bit for bit' % c.ty, case=c.describe(),
                                                  expected=vlib.val_to_tokens(c.args[0], c.ty), obtained=vlib.val_to_tokens(back, c.ty)))
+            elif i + 1 < len(toks) and toks[i + 1] == 'v0':
+                self.violations.append(Violation('counterexample', 'round trip of %s through serde_json::Value (keys handed over in alphabetical order) does not restore every part bit for bit' % c.ty,
+                                                 case=c.describe(), expected=vlib.val_to_tokens(c.args[0], c.ty), obtained='differs'))
             elif keys != expected[c.ty.hname]:
                 self.violations.append(Violation('counterexample', 'serialized %s stores its parts under keys %s, the model (documented names) says %s' % (c.ty, keys, expected[c.ty.hname]),
                                                  case=c.describe(), expected=expected[c.ty.hname], obtained=keys))
@@ -104,5 +107,5 @@ class Prop(BaseProp):
 
     def rule_text(self):
         return ('serde_json round trips of all scalar types over f32/f64 and nestings to depth 3; leaf values drawn from a pool of finite values that the same serde_json build round-trips '
-                'as plain floats (integers, extremes, signed zeros, random); compared: every part bit for bit, and the key sequence of the JSON text against the model evaluated on the tables '
+                'as plain floats (integers, extremes, signed zeros, random); compared: every part bit for bit (through the JSON text and through serde_json::Value, whose map hands the keys over in alphabetical order), and the key sequence of the JSON text against the model evaluated on the tables '
                 'extracted from the serde_derive output; non-trivial = both agree')
